@@ -9,7 +9,7 @@ CHECKS = {
  "C01": ("exploration",
    "property-based round-trip: generated (options, tree) -> backup -> restore, compared with an lstat/read snapshot oracle (proptest, shrinking)",
    "Random search over the product of backup options and source trees (names stressing the order, file sizes placed around the small-file cap and block multiples, every mode bit, pre-/post-epoch and sub-second mtimes, named owners), with a byte-exact snapshot oracle that shares no code with conserve. Exploration is the honest level: the input space is unbounded and an exact inverse exists, so a round-trip oracle decides each generated case completely.",
-   "Runs as root on tmpfs; owners restricted to ids that have names on this machine; generated trees <= 40 nodes (rarely 110-320 files), files <= 8 KiB (rarely to 300 KB), plus fixed scale probes per run (> 10 000 index hunks, blocks of 1-40 MiB, one 272 MiB file, one index hunk > 32 MiB); generated cases only, no absence claim.",
+   "Runs as root on tmpfs; owners restricted to ids that have names on this machine; generated trees <= 40 nodes (rarely 110-320 files), files <= 8 KiB (rarely to 300 KB), directory chains to 44 levels, names to 255 bytes, plus fixed scale probes per run (> 10 000 index hunks, blocks of 1-40 MiB, one 272 MiB file, one index hunk > 32 MiB, 100 200 files with default options, 700 directories under an open-file limit of 512); generated cases only, no absence claim.",
    "DESIGN.md 5 C01"),
  "C11": ("exploration",
    "exhaustive enumeration of path pairs/triples/strings against a reference order + property-based tree walks (proptest)",
